@@ -228,6 +228,25 @@ def run(shard, ctx):
                 check_attached(ctx, dev, tgt, devtype, wit)
                 use_primary(ctx, s, tgt, wit)
                 w.close(dev)
+        # every type and qualifier once more with the shortest and the longest standard INQUIRY data (ADDITIONAL LENGTH 1Fh and
+        # FFh) and with the flag bytes as units of older standards fill them (LINKED + CMDQUE, everything set, RELADR / WBUS / SYNC)
+        for devtype in range(32):
+            for q in range(8):
+                for length, flags7, version in ((36, 0x0A, 4), (260, 0x02, 5), (260, 0xFF, 6), (96, 0xBA, 2), (132, 0x0A, 3)):
+                    dev, tgt = w.new_device(devtype, q)
+                    tgt.inquiry_length, tgt.version = length, version
+                    tgt.inquiry_or = {7: flags7, 6: 0x08 if flags7 == 0xFF else 0}
+                    wit = {"transport": t, "types": [devtype], "qualifier": q, "inquiry_bytes": length, "inquiry_byte_7": flags7, "inquiry_version": version}
+                    ctx.case((t, devtype, q, length, flags7), True)
+                    ctx.count("attaches_over_lengths_and_flag_bytes")
+                    try:
+                        SCSI(dev)
+                    except Exception as e:  # noqa: BLE001
+                        ctx.fail("C16:attach_raises.%s" % type(e).__name__, "SCSI(dev) raised %s" % e, wit, exc=e)
+                        w.close(dev)
+                        continue
+                    check_attached(ctx, dev, tgt, devtype, wit)
+                    w.close(dev)
         # units of every age: each VERSION (0 = no standard claimed, 1..7 = SCSI-1 .. SPC-5) and RESPONSE DATA FORMAT, with
         # qualifiers other than 000b too; the selection follows the peripheral device type field alone
         for version in list(range(8)) + [0x80, 0x83]:
